@@ -318,8 +318,10 @@ pub fn evaluate(c: &Case, net: &Network, tp: &TrainParams, want_sig: bool) -> Ev
 
 fn triples(g: u32) -> Vec<(u32, u32, f64)> {
     let mut t = vec![];
-    for s in 0..g {
-        for e in (s + 1)..=g {
+    // zero-length (point) restrictions s == e are valid speed limits: a head-end one binds nowhere, a tail-end one
+    // binds over the train length behind it
+    for s in 0..=g {
+        for e in s..=g {
             for v in SPEEDS {
                 t.push((s, e, v));
             }
@@ -430,14 +432,14 @@ impl Prop for C02C13 {
     fn rule(&self, tier: Tier) -> String {
         let fams: Vec<String> = families(tier).iter().map(|f| format!("G={} r<={} speed_max in {:?} train_len in {:?}", f.g, f.r, f.speed_maxes, f.train_lens)).collect();
         format!(
-            "E-SHAPE: every sorted restriction list (start<end on a 0..G grid of 100 m units, speed in {{5,10,15}} m/s, distinct (start,end) pairs) x head/tail-end x train length x speed_max x speed_set/speed_sets style, single link [{}]; gating: every LimitType x CompareType x train value below/equal/above; routes of 2 links (r<=2 each) and 3 links (r<=1 each) of 4 units with every composition into extend calls; one real PathTpc::extend pipeline per element. A case is non-trivial/distinct by its signature = set of per-restriction classes (position after/at/inside the existing profile, start/end on an existing breakpoint, breakpoints covered, lowers at start/end, filtered by speed_max) computed against the reference profile of the restrictions before it.",
+            "E-SHAPE: every sorted restriction list (start<=end, zero-length ones included, on a 0..G grid of 100 m units, speed in {{5,10,15}} m/s, distinct (start,end) pairs) x head/tail-end x train length x speed_max x speed_set/speed_sets style, single link [{}]; gating: every LimitType x CompareType x train value below/equal/above; routes of 2 links (r<=2 each) and 3 links (r<=1 each) of 4 units with every composition into extend calls; one real PathTpc::extend pipeline per element. A case is non-trivial/distinct by its signature = set of per-restriction classes (position after/at/inside the existing profile, start/end on an existing breakpoint, breakpoints covered, lowers at start/end, filtered by speed_max) computed against the reference profile of the restrictions before it.",
             fams.join("; ")
         )
     }
     fn assumptions(&self) -> Vec<String> {
         vec![
             "reference = pointwise min(speed_max, applicable restrictions covering x), half-open [start, end(+train length for tail-end sets)); compared at midpoints between consecutive breakpoints only (DESIGN 1.6)".into(),
-            "zero-length restrictions and negative speeds are outside the generated domain".into(),
+            "negative speeds are outside the generated domain".into(),
             "restriction positions on a 100 m grid; speeds from {5,10,15} m/s; continuous positions between grid points are not covered".into(),
         ]
     }
